@@ -178,13 +178,13 @@ func (w *world) race(f []string) string {
 			}()
 		}
 		close(start)
-		wg.Wait()
+		w.waitOrGiveUp(&wg)
 	}
 	close(stop)
-	bad := <-polled
 	if w.panicked {
-		return "panic"
+		return "panic" // (the poller may be blocked on the lock as well)
 	}
+	bad := <-polled
 	final := "nil"
 	if r := w.rc.GetRegion(id); r != nil {
 		final = strconv.FormatUint(r.GetRegionEpoch().GetVersion(), 10)
@@ -245,7 +245,12 @@ func (w *world) scanRace(f []string) string {
 			}
 		}
 	}
-	for p := 0; p < passes && bad.Load() == nil && !w.panicked; p++ {
+	grew := false
+	for p := 0; p < passes && bad.Load() == nil && !w.panicked && !grew; p++ {
+		if r := w.rc.GetRegion(uint64(spots[0] + 1)); r != nil && len(r.GetStartKey()) > 64 {
+			grew = true // the served keys are not the reported ones any more (they would soon exhaust the memory)
+			break
+		}
 		for _, i := range spots {
 			v := version[i]
 			if version[i+1] > v {
@@ -260,14 +265,34 @@ func (w *world) scanRace(f []string) string {
 		}
 	}
 	atomic.StoreInt32(&stop, 1)
-	rwg.Wait()
+	w.waitOrGiveUp(&rwg)
 	if w.panicked {
 		return "panic"
 	}
 	if b := bad.Load(); b != nil {
 		return "bad=" + b.(string)
 	}
+	if grew {
+		return "served-keys-grew"
+	}
 	return "bad=-"
+}
+
+// waitOrGiveUp waits for wg; once a heartbeat has panicked (the cluster lock may be left held, so the other
+// goroutines can block for ever) it gives up after two seconds and abandons them with this cluster.
+func (w *world) waitOrGiveUp(wg *sync.WaitGroup) {
+	done := make(chan struct{})
+	go func() { wg.Wait(); close(done) }()
+	for {
+		select {
+		case <-done:
+			return
+		case <-time.After(2 * time.Second):
+			if w.panicked {
+				return
+			}
+		}
+	}
 }
 
 func (w *world) letGo() {
